@@ -23,6 +23,8 @@ EXTENDS Naturals, Sequences
 CONSTANTS CpuFloorUs,    \* CPU time every call may use regardless of the input
           CpuPerKiBUs,   \* ... plus this much per KiB of input
           AllocFloorKiB, \* heap every call may allocate regardless of the input
+          OpenAllocFloorKiB, \* the same for the calls that open a file (NewReader, MakeReader):
+                         \* what they build is bounded by limits.MaxXRefEntries = 8192 + 32 per raw byte
           AllocPerKiB,   \* ... plus this many KiB per KiB of input
           MaxLenKiB      \* inputs above this size are outside the calibrated range
 
@@ -42,7 +44,9 @@ LenKiB(len) == (len \div 1024) + 1
 
 OutcomeOK(c) == c.outcome \in Returned
 CpuOK(c)     == c.cpu_us <= CpuFloorUs + CpuPerKiBUs * Min(LenKiB(c.len), MaxLenKiB)
-AllocOK(c)   == c.alloc_kb <= AllocFloorKiB + AllocPerKiB * Min(LenKiB(c.len), MaxLenKiB)
+Opening      == {"open", "makereader"}
+AllocFloor(c) == IF c.call \in Opening THEN OpenAllocFloorKiB ELSE AllocFloorKiB
+AllocOK(c)   == c.alloc_kb <= AllocFloor(c) + AllocPerKiB * Min(LenKiB(c.len), MaxLenKiB)
 GoroutinesOK(c) == c.g1 <= c.g0
 ProducerOK(c)   == c.prod # 0          \* -1: no producer involved, 1: it returned
 
